@@ -68,9 +68,10 @@ def gen_expiry_restore_evict(rng, tier):
     and lookups; it is not an oracle."""
     policy = rng.choice(["fifo", "lru", "lfu"])
     mx = rng.choice([2, 3, 3, 4, 4, 5])
-    ttl = rng.choice([10, 20, rng.randint(6, 40)])
+    us = rng.random() < 0.15                     # tick = 1 us: staggered sub-millisecond stamps, 'just expired' = by 1 us
+    ttl = _us_ttl(rng, lo=2) if us else rng.choice([10, 20, rng.randint(6, 40)])
     shared = rng.choice([0, 0, 1, 2])
-    header = "cache max=%d policy=%s ttl=%d shared=%d" % (mx, policy, ttl, shared)
+    header = "cache max=%d policy=%s ttl=%d shared=%d" % (mx, policy, ttl, shared) + (" tick=us" if us else "")
     ref = _Ref(policy, mx, ttl)
     w = {"st": (), "now": 0, "c": 0, "nextkey": mx + 1}
     ops = []
@@ -111,11 +112,11 @@ def gen_expiry_restore_evict(rng, tier):
     for k in range(1, mx + 1):                   # fill, oldest first
         if rng.random() < 0.25:
             lat = rng.randint(2, ttl)
-            c, hit = arrive(k, lat, "ok")
+            c, hit = arrive(k, 0 if us else lat, "ok")       # tick=us: the completion is timed by the (late) poll alone
             if not hit:
                 slow.append([c, k, w["now"] + lat])
         request(k)
-        adv(rng.choice([0, 1, 1, 2, 3, max(1, ttl // 4)]))
+        adv(rng.choice([0, 1, 1, 2, 3, max(1, ttl // 4)] + ([rng.randint(1, 1500), rng.randint(1, 1500)] if us else [])))
     for _ in range(rng.randint(0, 3)):           # uses: LRU order / LFU counts differ from the insertion order
         if present():
             request(rng.choice(present()))
@@ -146,21 +147,243 @@ def gen_expiry_restore_evict(rng, tier):
     return {"header": header, "ops": ops}
 
 
+def _us_ttl(rng, lo=1):
+    """a TTL in microsecond ticks: whole milliseconds, milliseconds + a fraction, below one millisecond, around a boundary"""
+    r = rng.random()
+    if r < 0.35:
+        t = rng.randint(1, 8) * 1000
+    elif r < 0.70:
+        t = rng.randint(0, 8) * 1000 + rng.randint(1, 999)
+    elif r < 0.85:
+        t = rng.choice([1, 2, 500, 999, 1000, 1001, 1999, 2001, 4999])
+    else:
+        t = rng.randint(1, 12000)
+    return max(lo, t)
+
+
+def _us_age(rng, ttl):
+    """an age (in us ticks) worth a lookup for a TTL of `ttl` us: ttl-1 / ttl / ttl+1, strictly between the TTL and the
+    next whole millisecond of age, the millisecond boundaries around the TTL, anything"""
+    floor_ms = ttl // 1000 * 1000
+    nxt = floor_ms + 1000                         # first whole-millisecond age > ttl
+    r = rng.random()
+    if r < 0.30:
+        return max(0, ttl + rng.choice([-1, 0, 1]))
+    if r < 0.60:
+        return rng.randint(ttl + 1, max(ttl + 1, nxt - 1))
+    if r < 0.75:
+        return max(0, rng.choice([floor_ms - 1, floor_ms, floor_ms + 1, nxt - 1, nxt, nxt + 1]))
+    if r < 0.85:
+        return rng.randint(floor_ms, ttl)
+    return rng.randint(0, 2 * ttl + 1500)
+
+
+def gen_subms_ttl(rng, tier):
+    """tick = 1 us (`tick=us`): TTLs that are and are not whole milliseconds, entries stored at arbitrary microsecond
+    instants (also by a late poll of a miss), lookups at ages ttl-1 / ttl / ttl+1 us, between the TTL and the next whole
+    millisecond, at the millisecond boundaries around it. The generator follows the reference store only to aim."""
+    policy = rng.choice(["lru", "lfu", "fifo"])
+    mx = rng.choice([1, 2, 2, 3, 4])
+    ttl = _us_ttl(rng)
+    shared = rng.choice([0, 0, 1, 2])
+    nkeys = mx + rng.choice([0, 0, 1])
+    header = "cache max=%d policy=%s ttl=%d shared=%d tick=us" % (mx, policy, ttl, shared)
+    ref = _Ref(policy, mx, ttl)
+    w = {"st": (), "now": 0, "c": 0}
+    ops = []
+
+    def adv(d):
+        if d > 0:
+            ops.append("adv %d" % d)
+            w["now"] += d
+
+    def request(key, out="ok", delay=0):
+        w["c"] += 1
+        svc = "" if shared == 0 else " svc=%d" % rng.randint(0, 1)
+        ops.append("arrive %d key=%d%s inner=0:%s" % (w["c"], key, svc, out))
+        hit, w["st"] = ref.get(w["st"], key, w["now"])
+        adv(delay)                                # a miss is stored at the instant of its completion = of this poll
+        ops.append("poll %d" % w["c"])
+        if not hit and out == "ok":
+            w["st"] = ref.insert(w["st"], key, w["now"])[0][0]
+
+    adv(rng.choice([0, rng.randint(1, 2500)]))
+    for _ in range(rng.randint(3, 9)):
+        st = w["st"]
+        if not st or rng.random() < 0.2:
+            adv(rng.choice([0, 0, rng.randint(1, 1500)]))
+            request(rng.randint(1, nkeys), delay=rng.choice([0, 0, rng.randint(1, 1200)]))
+            continue
+        k, ins, _ = rng.choice(st)
+        want = _us_age(rng, ttl)
+        adv(max(0, ins + want - w["now"]))
+        request(k, out="ok" if rng.random() < 0.9 else "err1", delay=rng.choice([0, 0, 0, rng.randint(1, 1200)]))
+        others = [x for x, _, _ in w["st"] if x != k]
+        rng.shuffle(others)
+        for x in others[:rng.randint(0, 2)]:      # the other entries, at whatever age they have now
+            request(x)
+    ops.append("settle")
+    return {"header": header, "ops": ops}
+
+
+def gen_big_cache(rng, tier):
+    """max_size 9..40, any policy. The store is filled; the entries are then used unequally so that the policy's victim
+    is unique (LFU: counts 1, 2, 3 at the low end, everything else above; LRU: a random use order; FIFO: uses are
+    irrelevant) - sometimes a two-way LFU tie, which stays an observed choice; new keys then force evictions (a new
+    entry is sometimes used until it is no longer the least frequently used, so that the next victim is an old entry
+    again); read-back of the presumed victims (mostly as a probe: the refresh fails, nothing is stored) and of the entries
+    next in line. Sometimes a TTL and staggered stamps, so that some entries have expired by then. The generator follows the reference store (first allowed LFU victim)
+    only to aim; before an LFU eviction it breaks ties wider than 2 by using tied entries."""
+    policy = rng.choice(["lfu", "lfu", "lru", "fifo"])
+    mx = rng.choice([9, 12, 16, 20, 24, 28, 32, 36, 40, rng.randint(9, 40), rng.randint(17, 40)])
+    ttl = rng.choice([None, None, None, rng.choice([40, 80, 150])])
+    shared = rng.choice([0, 0, 1, 2])
+    header = "cache max=%d policy=%s" % (mx, policy) + ("" if ttl is None else " ttl=%d" % ttl) + " shared=%d" % shared
+    ref = _Ref(policy, mx, ttl)
+    w = {"st": (), "now": 0, "c": 0, "nextkey": mx + 1}
+    ops = []
+    victims = []
+    unsure = set()      # keys that were in an LFU tie: present or not, depending on the implementation's choice
+
+    def adv(d):
+        if d > 0:
+            ops.append("adv %d" % d)
+            w["now"] += d
+
+    def request(key, out="ok"):
+        """-> (hit, evicted key or None, number of allowed victims); with out="err1" it is a probe: a hit counts as a
+        use, a miss reaches the inner service, which fails, so nothing is stored and nothing evicted"""
+        w["c"] += 1
+        svc = "" if shared == 0 else " svc=%d" % rng.randint(0, 1)
+        ops.append("arrive %d key=%d%s inner=0:%s" % (w["c"], key, svc, out))
+        ops.append("poll %d" % w["c"])
+        hit, w["st"] = ref.get(w["st"], key, w["now"])
+        if hit or out != "ok":
+            return hit, None, 0
+        w["st"], victim, nallowed = ref.insert(w["st"], key, w["now"])[0]
+        if victim is not None:
+            victims.append(victim)
+        return False, victim, nallowed
+
+    def line():
+        """the entries in the order in which the policy would evict them"""
+        st = w["st"]
+        if policy == "lru":
+            return list(reversed(st))
+        if policy == "fifo":
+            return list(st)
+        return sorted(st, key=lambda e: e[2])
+
+    def store_new(key):
+        """a key that is not stored; under LFU a tie wider than two is narrowed first by using tied entries"""
+        if policy == "lfu" and len(w["st"]) >= mx:
+            for _ in range(8):
+                m = min(c for _, _, c in w["st"])
+                tied = [k for k, _, c in w["st"] if c == m]
+                if len(tied) <= 2:
+                    break
+                sure = [k for k in tied if k not in unsure]
+                if not sure:
+                    return False
+                request(rng.choice(sure))
+            else:
+                return False
+        _, victim, nallowed = request(key)
+        if nallowed > 1:
+            # which of the tied entries went is the implementation's choice and this generator does not see it: from
+            # here on the tied keys are treated alike - each is probed once now (which also tells the monitors who
+            # went), and later they are only ever probed, never re-stored - so that what follows does not depend on it
+            tied = [victim] + [k for k, _, c in w["st"] if c == m and k != key]
+            rng.shuffle(tied)
+            unsure.update(tied)
+            for k in tied:
+                request(k, out="err1")
+        return True
+
+    keys = list(range(1, mx + 1))
+    rng.shuffle(keys)
+    for k in keys:                                # fill
+        request(k)
+        if ttl is not None:
+            adv(rng.choice([0, 0, 1, 2]))
+    order = keys[:]
+    rng.shuffle(order)
+    if policy == "lfu":
+        nlow = rng.choice([1, 2, 2, 3]) if mx <= 24 else rng.choice([1, 1, 2])
+        for i, k in enumerate(order):
+            if i < nlow:
+                uses = i                          # counts 1, 2, 3 at the low end
+            elif i == nlow and rng.random() < 0.25:
+                uses = nlow - 1                   # a two-way tie at the top of the low end
+            else:
+                uses = nlow + rng.choice([0, 0, 0, 1, 2])
+            for _ in range(uses):
+                request(k)
+    else:
+        for k in order[:rng.randint(mx // 3, mx)]:
+            request(k)
+    if ttl is not None and rng.random() < 0.6:
+        stamps = sorted({ins for _, ins, _ in w["st"]})
+        j = rng.randint(0, max(0, min(3, len(stamps) - 2)))
+        adv(max(0, stamps[j] + ttl + rng.choice([0, 1, 1]) - w["now"]))
+        old = [k for k, ins, _ in w["st"] if w["now"] - ins > ttl]
+        rng.shuffle(old)
+        for k in old[:rng.randint(0, 2)]:
+            request(k)
+    for _ in range(rng.randint(1, 4)):            # evictions
+        nk = w["nextkey"]
+        w["nextkey"] += 1
+        if not store_new(nk):
+            break
+        if policy == "lfu" and rng.random() < 0.7:   # lift the new entry above the next old one
+            ln = line()
+            nxt = [c for k, _, c in ln if k != nk]
+            for _ in range(min(4, nxt[0] if nxt else 0)):
+                request(nk)
+        if rng.random() < 0.4:
+            for k, _, _ in line()[:rng.randint(1, 2)]:
+                if k not in unsure:
+                    request(k)
+    ops.append("settle")
+    nxt = [k for k, _, _ in line()[:3]]
+    rest = [k for k, _, _ in w["st"] if k not in nxt]
+    rng.shuffle(rest)
+    gone = list(dict.fromkeys(victims))[:4]
+    back = nxt + rest[:rng.randint(1, 4)] + gone
+    if rng.random() < 0.5:
+        rng.shuffle(back)
+    for k in back:                                # survivors next in line, some others, the presumed victims
+        if k in unsure or (k in gone and (policy == "lfu" or rng.random() < 0.5)):
+            request(k, out="err1")                # probe: a re-store would evict again (under LFU possibly out of a wide tie)
+        else:
+            request(k)
+    ops.append("settle")
+    return {"header": header, "ops": ops}
+
+
 def gen(rng, tier):
     r0 = rng.random()
     if r0 < 0.08:
         return gen_expired_refresh_fails(rng, tier)
     if r0 < 0.20:
         return gen_expiry_restore_evict(rng, tier)
+    if r0 < 0.28:
+        return gen_subms_ttl(rng, tier)
+    if r0 < 0.35:
+        return gen_big_cache(rng, tier)
     policy = rng.choice(["lru", "lfu", "fifo"])
     mx = rng.choice([1, 1, 2, 2, 2, 3, 3, 4])
     if rng.random() < 0.02:
         mx = 0                                   # degenerate: containers clamp (LRU -> 100, LFU/FIFO -> 1)
     ttl = rng.choice([None, None, rng.randint(1, 10), rng.choice([5, 10]), rng.randint(20, 60)])
+    us = rng.random() < 0.08                     # tick = 1 us: the same random walk at microsecond instants (inner latency 0,
+    if us and ttl is not None:                   # completions are timed by late polls)
+        ttl = _us_ttl(rng)
     shared = rng.choice([0, 0, 1, 2])
     nkeys = max(1, min(6, mx + rng.choice([-1, 0, 1, 1, 2])))
     keys = list(range(1, nkeys + 1))
-    header = "cache max=%d policy=%s" % (mx, policy) + ("" if ttl is None else " ttl=%d" % ttl) + " shared=%d" % shared
+    header = ("cache max=%d policy=%s" % (mx, policy) + ("" if ttl is None else " ttl=%d" % ttl) + " shared=%d" % shared
+              + (" tick=us" if us else ""))
     ops = []
     now = 0
     marks = []          # instants worth visiting: completions, completions + ttl
@@ -182,7 +405,7 @@ def gen(rng, tier):
             else:
                 key = rng.choice(keys)
         if lat is None:
-            lat = rng.choice([0, 0, 0, 0, 1, 3, 5, rng.randint(0, 20)])
+            lat = 0 if us else rng.choice([0, 0, 0, 0, 1, 3, 5, rng.randint(0, 20)])
         if out is None:
             out = _outcome(rng)
         svc = "" if shared == 0 else " svc=%d" % rng.randint(0, 1)
@@ -211,6 +434,8 @@ def gen(rng, tier):
             fut = [m for m in marks if m >= now]
             if fut and rng.random() < 0.75:
                 d = max(0, rng.choice(fut) - now + rng.choice([-1, 0, 0, 0, 1]))
+            elif us:
+                d = rng.choice([1, rng.randint(1, 999), rng.randint(1, 999), 1000, rng.randint(0, 2 * (ttl or 1500))])
             else:
                 d = rng.choice([0, 1, 2, 5, rng.randint(0, 30)])
             ops.append("adv %d" % d)
@@ -233,7 +458,7 @@ def gen(rng, tier):
         ops.append("settle")
     if ttl is not None and rng.random() < 0.5:
         # boundary read of the youngest entries: ttl-1 / ttl / ttl+1 after the last instant
-        d = max(0, ttl + rng.choice([-1, 0, 1]))
+        d = _us_age(rng, ttl) if us else max(0, ttl + rng.choice([-1, 0, 1]))
         ops.append("adv %d" % d)
         order = keys[:]
         rng.shuffle(order)
@@ -470,6 +695,8 @@ def _policy_walk(case, lines):
                     nxt.add(st2)
                     if victim is not None:
                         tags.append("evict-" + policy)
+                        if len(st) > 8:
+                            tags.append("evict-from-more-than-8-" + policy)
                         if any(k in restored for k, _, _ in st):
                             tags.append("evict-after-expiry-restore")
                         if nallowed > 1:
@@ -510,6 +737,7 @@ def mon_needless_miss(case, lines, meta):
 
 def transitions(case, lines, meta=None):
     mx, cap, policy, ttl = _cfg(case)
+    us = kvs(case["header"]).get("tick") == "us"
     evs, _ = _events(lines)
     tags = []
     latest = {}          # key -> (v, t, svc)
@@ -523,6 +751,8 @@ def transitions(case, lines, meta=None):
                 tags.append("hit")
                 if snap is not None and ttl is not None and e["t"] - snap[1] == ttl:
                     tags.append("hit-at-ttl")
+                    if us and ttl % 1000:
+                        tags.append("us-hit-at-ttl-not-whole-ms")
                 if snap is not None and snap[2] != e["svc"]:
                     tags.append("shared-cross-hit")
             else:
@@ -532,6 +762,8 @@ def transitions(case, lines, meta=None):
                     tags.append("miss-expired")
                     if e["t"] - snap[1] == ttl + 1:
                         tags.append("miss-at-ttl+1")
+                    if us and e["t"] - snap[1] < ttl // 1000 * 1000 + 1000:
+                        tags.append("us-miss-expired-by-less-than-1ms")
                 else:
                     tags.append("miss-evicted")
                 if any(k == e["key"] for k, _ in inflight.values()):
@@ -585,10 +817,12 @@ SPECS = {
         "all_transitions": ["hit", "miss-cold", "miss-expired", "miss-evicted", "hit-at-ttl", "miss-at-ttl+1", "store-new-key",
                             "store-again", "overwrite-by-later-completion", "concurrent-miss-same-key", "err-not-cached",
                             "panic-not-cached", "dropped-pending", "shared-cross-hit", "evict-lru", "evict-lfu", "evict-fifo",
-                            "lfu-tie", "lfu-candidates-pruned", "expired-removed-not-newest", "evict-after-expiry-restore"],
-        "model_modules": ["TR.Model.Cache", "TR.Lemmas.Cache", "TR.Lemmas.CacheFifo"],
-        "lean_files": ["TR.Model.Cache", "TR.Lemmas.Cache", "TR.Lemmas.CacheFifo"],
-        "sizes": (600, 40000),
+                            "lfu-tie", "lfu-candidates-pruned", "expired-removed-not-newest", "evict-after-expiry-restore",
+                            "us-miss-expired-by-less-than-1ms", "us-hit-at-ttl-not-whole-ms", "evict-from-more-than-8-lru",
+                            "evict-from-more-than-8-lfu", "evict-from-more-than-8-fifo"],
+        "model_modules": ["TR.Model.Cache", "TR.Lemmas.Cache", "TR.Lemmas.CacheFifo", "TR.Lemmas.CacheTtl"],
+        "lean_files": ["TR.Model.Cache", "TR.Lemmas.Cache", "TR.Lemmas.CacheFifo", "TR.Lemmas.CacheTtl"],
+        "sizes": (720, 40000),
         "rule": "seeded random op sequences (arrive key=1..6 / poll / drop / adv / settle) against the real CacheLayer and SharedCacheLayer "
                 "(two services), policy lru/lfu/fifo, max_size 1..4 (2% max_size=0), ttl none/1..10/20..60 ms, inner latency 0..20 ms with "
                 "ok/err/panic/never, keys biased to in-flight and recent ones (concurrent misses, re-inserts), advances biased to "
@@ -596,20 +830,30 @@ SPECS = {
                 "8% expired-entry-whose-refresh-fails scenarios; 12% expiry/re-store/evict scenarios (max_size 2..5, any policy, store "
                 "filled at staggered instants, inserted_at sometimes refreshed by a late concurrent completion, advance so that a "
                 "non-newest subset has expired, some expired keys requested again in any order, new keys forcing evictions, read-back "
-                "of every key, survivors first; one or two rounds). "
+                "of every key, survivors first; one or two rounds; 15% of them with 1 us ticks). "
+                "8% of the random walks and 8% dedicated scenarios run with `tick=us` (one clock tick = 1 us, the cache is timed by "
+                "std::time::Instant alone; inner latency 0, completions timed by late polls): TTLs of whole milliseconds, milliseconds + "
+                "a fraction, below 1 ms; entries stamped at arbitrary microseconds; lookups at ages ttl-1 / ttl / ttl+1 us, strictly "
+                "between the TTL and the next whole millisecond, at the millisecond boundaries around the TTL. "
+                "7% big-cache scenarios (max_size 9..40, any policy, sometimes a TTL with staggered stamps): fill, unequal uses that "
+                "leave a unique LFU / LRU / FIFO victim (LFU counts 1,2,3 at the low end, 25% a two-way tie; ties wider than two are "
+                "narrowed before an eviction), 1-4 new keys (a new LFU entry is usually lifted above the next old one), read-back of "
+                "the entries next in line, of some others and of the presumed victims. "
                 "distinct = distinct implementation event log; non-trivial = at least one hit and an eviction, an expiry, a hit exactly at "
                 "the TTL, concurrent misses on one key or an overwrite by a later completion",
         "level_text": "Theorems TR.Props.C10.{size_bounded, keys_unique, store_refines_spec, stored_only_by_ok_completion, hit_is_latest, "
                       "hit_right_key, hit_no_inner_call, hit_result, miss_calls_once, only_arrive_calls, inner_call_at_most_once, "
                       "errors_not_cached, cached_values_are_ok_responses, completion_inserts, victim_lru, victim_fifo, victim_lfu, "
-                      "no_eviction_otherwise, fifo_queue_step, fifo_survivors_keep_order, fifo_queue_in_creation_order, "
+                      "no_eviction_otherwise, ttl_boundary_exact, expiry_is_unit_free, victim_lfu_unique_min, fifo_queue_step, fifo_survivors_keep_order, fifo_queue_in_creation_order, "
                       "victim_fifo_oldest_stored, cap_is_max}: for every operation sequence (any key space, any interleaving of lookups, "
                       "completions, cancellations and time advances, concurrent misses on one key), every policy, every max_size >= 1, TTL "
                       "absent or any value, every LFU victim choice: the store never exceeds max_size and holds no key twice; it refines the "
                       "specification map key -> (value, instant) of the latest Ok completion; a hit returns exactly that value, stored no "
                       "longer than ttl ago, produced for that key by an Ok completion, without an inner call; a miss makes exactly one inner "
                       "call; errors/panics store nothing; a new key into a full store removes the least-recently-used / first-inserted / a "
-                      "minimum-count entry and nothing else; under FIFO every operation either leaves the queue slots alone, deletes exactly the "
+                      "minimum-count entry and nothing else (of a store of any size; a unique minimum-count entry leaves no choice); a stored key "
+                      "is served while its age is <= ttl clock ticks and not one tick longer, whatever the length of a tick (the expiry test "
+                      "commutes with a change of unit); under FIFO every operation either leaves the queue slots alone, deletes exactly the "
                       "slot of the expired entry it read (front, middle or back; the others keep their order), or appends a newly created "
                       "entry at the back (after popping the front when full), so after any interleaving of expiry-removals and re-stores the "
                       "victim is the front of the queue = the entry stored longest without interruption. Proved by three inductive invariants over all histories. The model is tied to the "
@@ -619,7 +863,7 @@ SPECS = {
                     "harness: clock_gettime interposition (std::time::Instant is virtual), manual poller, scripted inner service",
                     "python diff/monitors"],
         "assumptions": ["one call()/one poll of one call future is atomic (the store mutex is never held across an await)",
-                        "usize modelled as unbounded Nat; TTL and all instants are whole milliseconds",
+                        "usize modelled as unbounded Nat; TTL and all instants are whole clock ticks (1 ms, or 1 us in `tick=us` cases)",
                         "theorems assume max_size >= 1 (the property's quantifier)"],
     },
 }
